@@ -342,6 +342,16 @@ def eff_1(ctx, rep, only=None, minimum=60):
     build_only = {k for k in build if k not in no_load} | {k for k in reach if k not in no_load and k[1].endswith('.__init__')
                                                           and k[0] in ('parso/grammar.py', 'parso/pgen2/generator.py', 'parso/pgen2/grammar_parser.py')}
     rep.stat('build_phase_functions', len(build_only))
+    # private helpers a memo function was split into: their writes are judged as part of it (MEMO-1 reads the same view)
+    memo_parts = {}
+    for mkey in ALLOWED_SHARED_WRITES:
+        mf = ctx.prog.funcs.get(mkey)
+        if mf is None:
+            continue
+        for hname in getattr(ctx.view(mf), 'inlined', ()):
+            h = mf.mod.funcs.get(hname)
+            if h is not None and all(c == mkey or c in memo_parts for c, tgts in ctx.cg.edges.items() if h.key in tgts):
+                memo_parts[h.key] = mkey
     for key in sorted(reach):
         f = ctx.prog.funcs[key]
         writes = eff.shared_writes(f)
@@ -355,6 +365,9 @@ def eff_1(ctx, rep, only=None, minimum=60):
         for n, why in writes:
             if key in ALLOWED_SHARED_WRITES:
                 rep.ob('EFF-1', key[0], key[1], norm(n), True, reason=ALLOWED_SHARED_WRITES[key])
+            elif key in memo_parts:
+                rep.ob('EFF-1', key[0], key[1], norm(n), True,
+                       reason='helper called only by %s: %s' % (memo_parts[key][1], ALLOWED_SHARED_WRITES[memo_parts[key]]))
             else:
                 rep.ob('EFF-1', key[0], key[1], norm(n), False,
                        'write to shared state (%s) reachable at parse time via %s' % (why, ' -> '.join(call_path(prev, key)[-4:])))
@@ -401,7 +414,8 @@ def eff_3(ctx, rep, reach=None, prev=None):
                     full = imp[1] + '.' + imp[2] + name[len(root):]
                 if full in GLOBAL_EFFECT_CALLS:
                     n += 1
-                    rep.ob('EFF-3', key[0], key[1], norm(c), False,
+                    okey = ctx.owner(key)            # a private helper of one function: keyed by that function
+                    rep.ob('EFF-3', okey[0], okey[1], norm(c), False,
                            '%s: %s; reachable via %s' % (full, GLOBAL_EFFECT_CALLS[full], ' -> '.join(call_path(prev, key)[-4:])))
         rep.ob('EFF-3', key[0], key[1], 'def %s: no process-global effect call' % f.name, True)
     rep.minimum('EFF-3', 60)
@@ -529,7 +543,7 @@ def eff_5(ctx, rep):
     rep.rule('EFF-5', 'the parser object used by Grammar.parse is created in the same activation and never stored; '
                       'normalizers and rule instances are created per call')
     prog = ctx.prog
-    gp = prog.func('parso/grammar.py', 'Grammar.parse')
+    gp = ctx.view(prog.func('parso/grammar.py', 'Grammar.parse'))      # helpers it was split into are read in place
     parse_calls = [c for c in walk_own(gp.node) if isinstance(c, ast.Call) and is_method_call(c, 'parse')]
     for c in parse_calls:
         recv = c.func.value
@@ -661,6 +675,7 @@ def memo_1(ctx, rep):
         f = ctx.prog.funcs.get(key)
         if f is None:
             raise AnalysisError('anchor vanished: memo function %s:%s' % key)
+        f = ctx.view(f)             # the store may have been moved into a private helper
         stores = []
         for n, why in eff.shared_writes(f):
             if not why.startswith('module global'):
